@@ -239,6 +239,15 @@ func (c *Ctx) funcEnv(s *State, fr *Frame, entry bool) *SpecEnv {
 		if i == 0 && top.Fn.Signature.Recv() != nil {
 			old.Vars["this"] = tv
 		}
+		// positional names (arg0, arg1, ...), as used by contracts of function types
+		ai := i
+		if top.Fn.Signature.Recv() != nil {
+			ai = i - 1
+		}
+		if ai >= 0 {
+			old.Vars[fmt.Sprintf("arg%d", ai)] = tv
+			env.Vars[fmt.Sprintf("arg%d", ai)] = tv
+		}
 		if entry {
 			env.Vars[p.Name()] = tv
 			if i == 0 && top.Fn.Signature.Recv() != nil {
@@ -475,6 +484,11 @@ func (c *Ctx) run(s *State) (out []*State) {
 	steps := 0
 	for {
 		fr := s.Frame
+		if fr.PC == 0 && fr.Caller == nil && s.inAbstractLoop() > 0 {
+			// the body of a loop declared abstract is not explored (its effects are the havoc at the loop head; what
+			// returns from inside the body would have to establish is not checked - stated with the assumption)
+			return nil
+		}
 		if fr.PC == 0 {
 			// block entry: loop head handling
 			if li := c.loopInfo(fr.Fn); li != nil {
